@@ -114,7 +114,14 @@ func selftest(args []string) int {
 							hit = true
 						}
 					}
+					knownMiss := ""
+					if b, err := os.ReadFile(strings.TrimSuffix(pt, ".patch") + ".known_miss"); err == nil {
+						knownMiss = strings.TrimSpace(string(b))
+					}
 					switch {
+					case !ok && knownMiss != "":
+						// a documented limit of the technique (kept in the corpus so that it is noticed if it ever gets caught)
+						fmt.Printf("selftest known-miss %s %s: %s\n", p, name, knownMiss)
 					case !ok:
 						fmt.Printf("SELFTEST-MISSED %s %s: mutant verifies (engine or contract hole)\n", p, name)
 						bad++
